@@ -12,6 +12,20 @@ use std::collections::HashMap;
 use std::num::NonZeroUsize;
 use std::panic::{catch_unwind, AssertUnwindSafe};
 
+/// serde round trip through serde_json (self-describing) and through the binary format of wire.rs (not self-describing):
+/// the JSON copy, and whether both copies equal the original and the JSON copy re-serialises alike
+#[cfg(feature = "it_deser")]
+pub fn rt_both<T: Serialize + serde::de::DeserializeOwned + PartialEq>(a: &Arena<T>) -> Option<(Arena<T>, bool)> {
+    let s = serde_json::to_string(a).ok()?;
+    let c: Arena<T> = serde_json::from_str(&s).ok()?;
+    let mut eq = c == *a && serde_json::to_string(&c).ok()? == s;
+    match crate::wire::to_bytes(a).and_then(|b| crate::wire::from_bytes::<Arena<T>>(&b)) {
+        Ok(w) => eq = eq && w == *a,
+        Err(_) => eq = false,
+    }
+    Some((c, eq))
+}
+
 /// Payload types the harness can store in an arena.
 pub trait Payload: PartialEq + std::fmt::Debug + Sized + 'static {
     fn make(tok: u32) -> Self;
@@ -36,10 +50,7 @@ impl Payload for u32 {
     }
     #[cfg(feature = "it_deser")]
     fn round_trip(a: &Arena<Self>) -> Option<(Arena<Self>, bool)> {
-        let s = serde_json::to_string(a).ok()?;
-        let c: Arena<u32> = serde_json::from_str(&s).ok()?;
-        let eq = c == *a && serde_json::to_string(&c).ok()? == s;
-        Some((c, eq))
+        rt_both(a)
     }
 }
 
@@ -57,10 +68,7 @@ impl Payload for String {
     }
     #[cfg(feature = "it_deser")]
     fn round_trip(a: &Arena<Self>) -> Option<(Arena<Self>, bool)> {
-        let s = serde_json::to_string(a).ok()?;
-        let c: Arena<String> = serde_json::from_str(&s).ok()?;
-        let eq = c == *a && serde_json::to_string(&c).ok()? == s;
-        Some((c, eq))
+        rt_both(a)
     }
 }
 
@@ -96,10 +104,7 @@ impl Payload for Rich {
     }
     #[cfg(feature = "it_deser")]
     fn round_trip(a: &Arena<Self>) -> Option<(Arena<Self>, bool)> {
-        let s = serde_json::to_string(a).ok()?;
-        let c: Arena<Rich> = serde_json::from_str(&s).ok()?;
-        let eq = c == *a && serde_json::to_string(&c).ok()? == s;
-        Some((c, eq))
+        rt_both(a)
     }
 }
 
@@ -469,7 +474,14 @@ impl<P: Payload> Sim<P> {
 
 impl<P: Payload + Clone> Sim<P> {
     pub fn fork(&self) -> Self {
-        Sim { arena: self.arena.clone(), ids: self.ids.clone(), toks: self.toks.clone(), issued: self.issued.clone() }
+        // a clone has no spare capacity; the copy gets the original's slack back, so that behaviour that depends on
+        // `len < capacity` is the same in the copy
+        let mut arena = self.arena.clone();
+        let slack = self.arena.capacity().saturating_sub(self.arena.count());
+        if slack > 0 {
+            arena.reserve(slack);
+        }
+        Sim { arena, ids: self.ids.clone(), toks: self.toks.clone(), issued: self.issued.clone() }
     }
 
     /// Allocates on a clone until `count()` grows: the slots obtained are exactly the
@@ -572,6 +584,60 @@ impl<P: Payload> Sim<P> {
         }
     }
 
+    /// The other ways of consuming an iterator must agree with repeated next(): count(), last(), fold()/for_each(), nth(),
+    /// and size_hint() must bracket the number of items. Returns descriptions of disagreements (empty = all agree).
+    /// Iterators that do not end within `limit` items are skipped (C02/C09 report those).
+    pub fn consumers_disagree(&self, slot: usize, limit: usize) -> Vec<String> {
+        let a = &self.arena;
+        let id = self.id(slot);
+        let mut out = Vec::new();
+        fn chk<X: PartialEq + std::fmt::Debug + Copy, I: Iterator<Item = X>>(name: &str, mk: &dyn Fn() -> I, limit: usize, out: &mut Vec<String>) {
+            let v: Vec<X> = mk().take(limit).collect();
+            if v.len() >= limit {
+                return;
+            }
+            let (lo, hi) = mk().size_hint();
+            if lo > v.len() || hi.map_or(false, |h| h < v.len()) {
+                out.push(format!("{}: size_hint() is ({}, {:?}) but {} items are yielded", name, lo, hi, v.len()));
+            }
+            let c = mk().count();
+            if c != v.len() {
+                out.push(format!("{}: count() is {} but repeated next() yields {} items", name, c, v.len()));
+            }
+            let l = mk().last();
+            if l != v.last().copied() {
+                out.push(format!("{}: last() is {:?} but the last item yielded by next() is {:?}", name, l, v.last()));
+            }
+            let f: Vec<X> = mk().fold(Vec::new(), |mut acc, x| {
+                if acc.len() <= limit {
+                    acc.push(x);
+                }
+                acc
+            });
+            if f != v {
+                out.push(format!("{}: fold()/for_each() visits {:?} but next() yields {:?}", name, f, v));
+            }
+            for k in [0usize, 1, 2] {
+                let mut it = mk();
+                let n = it.nth(k);
+                let rest: Vec<X> = it.take(limit).collect();
+                if n != v.get(k).copied() || (k < v.len() && rest[..] != v[k + 1..]) {
+                    out.push(format!("{}: nth({}) is {:?} then {:?}, but next() yields {:?}", name, k, n, rest, v));
+                }
+            }
+        }
+        chk("ancestors", &|| id.ancestors(a), limit, &mut out);
+        chk("predecessors", &|| id.predecessors(a), limit, &mut out);
+        chk("preceding_siblings", &|| id.preceding_siblings(a), limit, &mut out);
+        chk("following_siblings", &|| id.following_siblings(a), limit, &mut out);
+        chk("children", &|| id.children(a), limit, &mut out);
+        chk("reverse_children", &|| id.reverse_children(a), limit, &mut out);
+        chk("descendants", &|| id.descendants(a), limit, &mut out);
+        chk("traverse", &|| id.traverse(a), 2 * limit, &mut out);
+        chk("reverse_traverse", &|| id.reverse_traverse(a), 2 * limit, &mut out);
+        out
+    }
+
     /// Consumes a double-ended iterator according to a pull word ('F' = next, 'B' = next_back).
     pub fn pulls(&self, which: &str, slot: usize, word: &str) -> Vec<i64> {
         let a = &self.arena;
@@ -586,6 +652,53 @@ impl<P: Payload> Sim<P> {
             _ => panic!("harness: unknown iterator"),
         };
         v.into_iter().map(|x| self.link(x)).collect()
+    }
+
+    /// what is left after the pulls of `word`, seen through the different ways of consuming an iterator: repeated next()
+    /// (bounded), count(), last(), fold() (= for_each / sum / ...), and rev() (bounded). Each on a fresh iterator.
+    pub fn pulls_then(&self, which: &str, slot: usize, word: &str, limit: usize) -> (Vec<i64>, usize, i64, Vec<i64>, Vec<i64>) {
+        let a = &self.arena;
+        let id = self.id(slot);
+        fn adv<I: DoubleEndedIterator<Item = NodeId>>(mut it: I, word: &str) -> I {
+            for c in word.chars() {
+                if c == 'F' {
+                    it.next();
+                } else {
+                    it.next_back();
+                }
+            }
+            it
+        }
+        macro_rules! with {
+            ($f:expr) => {
+                match which {
+                    "kids" => $f(adv(id.children(a), word)),
+                    "prec" => $f(adv(id.preceding_siblings(a), word)),
+                    "foll" => $f(adv(id.following_siblings(a), word)),
+                    _ => panic!("harness: unknown iterator"),
+                }
+            };
+        }
+        fn rest<I: DoubleEndedIterator<Item = NodeId>>(it: I, limit: usize) -> Vec<NodeId> {
+            it.take(limit).collect()
+        }
+        let lim = limit;
+        let r: Vec<NodeId> = with!(|it| rest(it, lim));
+        if r.len() >= limit {
+            // does not end: the internal-iteration consumers are not tried
+            return (r.into_iter().map(|x| self.link(Some(x))).collect(), usize::MAX, 0, vec![], vec![]);
+        }
+        let count: usize = with!(|it| Iterator::count(it));
+        let last: Option<NodeId> = with!(|it| Iterator::last(it));
+        let folded: Vec<NodeId> = with!(|it| Iterator::fold(it, Vec::new(), |mut v: Vec<NodeId>, x| {
+            if v.len() <= lim {
+                v.push(x);
+            }
+            v
+        }));
+        let rev: Vec<NodeId> = with!(|it| rest(Iterator::rev(it), lim));
+        let m = |v: Vec<NodeId>| -> Vec<i64> { v.into_iter().map(|x| self.link(Some(x))).collect() };
+        (m(r), count, self.link(last), m(folded), m(rev))
     }
 
     /// `.rev()` of the three double-ended iterators, bounded
